@@ -5,12 +5,15 @@
 package simexec
 
 import (
+	"context"
 	"errors"
 	"fmt"
 	"io"
 	"sync"
 	"syscall"
 	"time"
+
+	"github.com/whawty/auth/zzverif/simrt"
 )
 
 type Behaviour struct {
@@ -123,12 +126,22 @@ type Cmd struct {
 	Process      *Process
 	ProcessState *ProcessState
 	SysProcAttr  *syscall.SysProcAttr
+	Cancel       func() error
+	WaitDelay    time.Duration
 	started      bool
 	waited       bool
+	ctx          context.Context
 }
 
 func Command(name string, arg ...string) *Cmd {
 	return &Cmd{Path: name, Args: append([]string{name}, arg...)}
+}
+
+// CommandContext: the process is killed when ctx is done.
+func CommandContext(ctx context.Context, name string, arg ...string) *Cmd {
+	c := Command(name, arg...)
+	c.ctx = ctx
+	return c
 }
 
 func LookPath(file string) (string, error) { return file, nil }
@@ -139,6 +152,7 @@ func (c *Cmd) Start() error {
 	if c.started {
 		return errors.New("exec: already started")
 	}
+	simrt.Yield("exec:" + c.Path) // every process start is a scheduling point for scheduler-owned goroutines
 	w := Cur
 	w.mu.Lock()
 	defer w.mu.Unlock()
@@ -159,6 +173,15 @@ func (c *Cmd) Start() error {
 	c.started = true
 	w.Procs = append(w.Procs, p)
 	c.Process = &Process{Pid: 1000 + p.ID, p: p, w: w}
+	if c.ctx != nil {
+		go func(pr *Process, ctx context.Context) {
+			select {
+			case <-ctx.Done():
+				pr.Kill() //nolint
+			case <-pr.p.kill:
+			}
+		}(c.Process, c.ctx)
+	}
 	return nil
 }
 
